@@ -43,6 +43,17 @@ class {P}Fz(ASTNode):
     def __len__(self):
         return 0
 
+@dataclass(frozen=True)
+class {P}Coll(ASTNode):
+    # a node class that satisfies collections.abc.Collection (len / iter / in over its items)
+    items: tuple[{P}N0, ...] = ()
+    def __len__(self):
+        return len(self.items)
+    def __iter__(self):
+        return iter(self.items)
+    def __contains__(self, x):
+        return any(x is i for i in self.items)
+
 {P}NTint = NewType("{P}NTint", int)
 {P}NTstr = NewType("{P}NTstr", str)
 {P}NTnode = NewType("{P}NTnode", {P}N0)
@@ -268,7 +279,7 @@ def classify(a) -> str:
 # ---------------------------------------------------------------------------
 ATOMS = [
     ("int",), ("str",), ("bool",), ("float",), ("any",), ("none",), ("enum",), ("lit", ("a", 1, "alpha-beta", 65536)),  # members that CPython caches as singletons and members it does not
-    ("nt", "NTint"), ("nt", "NTnode"), ("nt", "NTnt"), ("nt", "NTseq"), ("nt", "NTopt"), ("nt", "NTints"), ("node", "N0"), ("node", "N1"), ("node", "Fz"), ("fwd", "L0"),
+    ("nt", "NTint"), ("nt", "NTnode"), ("nt", "NTnt"), ("nt", "NTseq"), ("nt", "NTopt"), ("nt", "NTints"), ("node", "N0"), ("node", "N1"), ("node", "Fz"), ("node", "Coll"), ("fwd", "L0"),
 ]
 R0 = [("int",), ("str",), ("none",), ("node", "N0"), ("node", "N1"), ("nt", "NTnode"), ("fwd", "L0")]
 UNARY = [("opt", "typing"), ("opt", "pipe"), ("tvar",), ("tfix1",), ("fset",), ("seq",), ("list",), ("set",)]
@@ -405,8 +416,9 @@ def conforms(v: Any, a, env: dict) -> bool | None:
             return False
         if k == "seq" and (not isinstance(v, cabc.Sequence)):
             return False
-        if k == "seq" and isinstance(v, str):
-            return None
+        if k == "seq" and isinstance(v, str) and len(v) <= 1:
+            return None  # the empty string is vacuously a sequence of anything; a one-character string contains itself
+        # (a longer string is a sequence of one-character strings: it conforms to Sequence[str] and to nothing else)
         rs = [conforms(x, a[1], env) for x in v]
         if any(r is False for r in rs):
             return False
